@@ -174,7 +174,9 @@ func K4() *Entry {
 	// custom types through configuration: one with the default suffix, one with a suffixes entry
 	c.CustomTypes = map[string]string{"Casts.Joined": "verif/types.Joined", "Casts.Plain": "verif/types.Labels", "Casts.PlainToo": "verif/types.Labels", "Casts.UnderPath": "verif/my_lib/api_v2.Owner_Ref"}
 	// (suffixes are taken verbatim: acronyms, digits before capitals)
-	c.Suffixes = map[string]string{"CustomB": "Switch", "verif/types.Labels": "HTTPLabelsV2"}
+	c.Suffixes = map[string]string{"CustomB": "Switch", "verif/types.Labels": "HTTPLabelsV2",
+		// entries for other packages' types of the same simple name as a custom type used here (they match nothing)
+		"github.com/acme/api/wrappers.CustomA": "WrappedA", "github.com/acme/lib/utils.CustomA": "UtilA", "example.com/x.Joined": "OtherJoined", "example.com/y.Joined": "YetAnotherJoined"}
 	// an import override for the package that qualifies custom type names (the names only make the hook suffix)
 	c.ImportPathOverrides = map[string]string{"verif/types": "example.com/elsewhere/types", "verif/my_lib/api_v2": "example.com/elsewhere/api"}
 	return &Entry{Name: "k4", File: f, Cfg: c, Tags: []string{"cast", "custom", "oneof"}}
@@ -346,7 +348,8 @@ func K9() *Entry {
 		// `Tag.Label` (Message.Field key) is excluded; `PriceTag.Label` ends with the same text and must stay
 		F("Tag", MsgT("Tag")), F("PriceTag", MsgT("PriceTag")))
 	tag := M("Tag", F("Label"), F("Weight", Sc(ir.Int32)))
-	priceTag := M("PriceTag", F("Label"), F("Amount", Sc(ir.Int64)))
+	// (same field name as Tag.Label, another attribute name: names are derived per field, not per field name)
+	priceTag := M("PriceTag", F("Label", JSON("price_label,omitempty")), F("Amount", Sc(ir.Int64)), F("Weight", Sc(ir.Int32), JSON("gross_weight")))
 	spec := M("UserSpec", F("Meta", MsgT("Meta")), F("Common", MsgT("Common"), NonNull(), Embed()), F("Level", Sc(ir.Int32)))
 	common := M("Common", F("Region"), F("Zone"), F("Contact", MsgT("Owner")))
 	pref := M("Pref", F("Meta", MsgT("Meta"), NonNull()), F("Common", MsgT("Common"), NonNull(), Embed()), F("Enabled", Sc(ir.Bool)))
